@@ -38,6 +38,11 @@ pub trait Scenario: Sync {
     fn hang_signature(&self) -> Option<String> {
         None
     }
+    /// A run that crashed or hung reports nothing itself; once its workload has
+    /// been recovered the scenario may make the signature more specific.
+    fn refine_signature(&self, _signature: &str, _workload: &Value) -> Option<String> {
+        None
+    }
     fn crash_signature(&self, sig: i32) -> String {
         format!("{}/crash/signal-{}", self.property(), sig)
     }
@@ -95,6 +100,11 @@ pub fn run_one(scn: &dyn Scenario, spec: &Spec) -> RunResult {
         }
     } else if r.raw.is_null() && !spec.overrides.is_null() {
         r.raw = serde_json::json!({"workload": spec.overrides, "recovered": true});
+    }
+    if r.outcome == "violation" && r.raw["recovered"] == true {
+        if let Some(s) = scn.refine_signature(&r.signature, &r.raw["workload"]) {
+            r.signature = s;
+        }
     }
     r
 }
